@@ -43,7 +43,11 @@ pub const HEADER_VALUES: &[(&str, Option<u32>)] = &[
     ("D8", None),
     ("1 5", None),
 ];
-pub const NOISE: &[&str] = &["garbage", "a->b:", "    void missingArrow()", "com.example.Foo -> a", "  two spaces -> x", "    1:void m() -> x", "\u{feff}x"];
+pub const NOISE: &[&str] = &[
+    "garbage", "a->b:", "    void missingArrow()", "com.example.Foo -> a", "  two spaces -> x", "    1:void m() -> x", "\u{feff}x",
+    // lines of blanks only: not empty, so they are items (errors) of the stream and count towards "the first 50"
+    " ", "    ", "\t", "  \t ", "\u{a0}",
+];
 
 #[derive(Clone, Debug, Serialize, Deserialize)]
 pub struct Seg {
@@ -365,7 +369,7 @@ pub struct JoinedCase {
 
 pub const GREY_VALUES: &[&str] = &[
     "+21", "+0", "-0", "021", "0021", " 21", "21 ", "\t21", "2_1", "0x15", "21.0", "2e1", "\u{661}\u{662}", "\u{ff12}\u{ff11}", "4294967295", "4294967296", "+4294967295", "+4294967296", "", " ", "+", "-",
-    "21:", "21 # x", "٢١", "1 5",
+    "21:", "21 # x", "٢١", "1 5", "-00", "-000", "+00", "-0 ", "0", "00",
 ];
 
 impl JoinedCase {
@@ -501,6 +505,7 @@ pub fn run(ctx: &Ctx) -> Report {
     rep.run_stage("joined", joined_case, ctx.cases(60_000, 1_500_000), check_joined);
     let longs = long_cases();
     rep.run_enum("long", &longs, check_case);
+    rep.run_enum("default-objects", &[0u8], super::common::check_default_objects);
     let cfg = crate::gen::mapping::GenCfg { plain_sourcefile_headers: true, ..Default::default() };
     rep.run_stage("mutants", move || crate::gen::mutate::hostile_case(&cfg), ctx.cases(40_000, 1_800_000), |c: &crate::gen::mutate::MutCase, st: &mut Stats| check_raw(&c.bytes(), st));
     rep.run_stage("bytes", || vec(any::<u8>(), 0..300).prop_map(|v| RawCase { hex: hex(&v) }), ctx.cases(40_000, 1_800_000), |c: &RawCase, st: &mut Stats| check_raw(&unhex(&c.hex), st));
@@ -515,6 +520,9 @@ pub fn run(ctx: &Ctx) -> Report {
 }
 
 pub fn replay(stage: &str, case: &Value) -> Check {
+    if stage == "default-objects" {
+        return super::common::check_default_objects(&0, &mut Stats::new());
+    }
     let mut st = Stats::new();
     let de = |e: serde_json::Error| Fail::new("harness-replay", e.to_string());
     match stage {
